@@ -442,8 +442,12 @@ class Item:
         `(match OPT { Some(x) => Some(CALL?), None => None })`.  OPT is a field path."""
         pat = re.compile(r"([\w.]+)\s*\.map\(\|(\w+)\|\s*((?:[^()]|\([^()]*\))*?)\)\s*\.transpose\(\)\?", re.S)
         self.text, n = pat.subn(lambda m: "(match %s { Some(%s) => Some(%s?), None => None })" % (m.group(1), m.group(2), m.group(3).strip()), self.text)
+        # the same with a function NAME instead of a closure: `OPT.map(f).transpose()?`
+        pat2 = re.compile(r"([\w.]+)\s*\.map\(\s*([A-Za-z_][\w:]*)\s*\)\s*\.transpose\(\)\?", re.S)
+        self.text, n2 = pat2.subn(lambda m: "(match %s { Some(verif_mt) => Some(%s(verif_mt)?), None => None })" % (m.group(1), m.group(2)), self.text)
+        n += n2
         if n:
-            self.rewrites.append({"rule": "R8", "what": "%d `opt.map(|x| call).transpose()?` desugared to `match opt { Some(x) => Some(call?), None => None }`" % n})
+            self.rewrites.append({"rule": "R8", "what": "%d `opt.map(|x| call).transpose()?` / `opt.map(f).transpose()?` desugared to `match opt { Some(x) => Some(call?), None => None }`" % n})
         return self
 
     def desugar_try_collect(self, ghost_tpl="", invariant_tpl="", end_tpl="", after_tpl=""):
